@@ -229,6 +229,37 @@ func checkC13Bind(c any, r *Rec) error {
 			return fmt.Errorf("aliased import, the macro's own name read afterwards: got %q err=%v, want %q\n root=%q files=%v", got, gerr, want, mmSrc(root), c12FilesSrc(f.files))
 		}
 	}
+	// the result of a call is markup of its own, wherever and whenever it is printed: produced
+	// inside an autoescape-off region, kept with set and printed later under autoescape on it
+	// must read exactly as printed on the spot
+	if !firstErr {
+		defs := []MNode{}
+		if cs.Helper != nil {
+			defs = append(defs, *cs.Helper)
+		}
+		defs = append(append(defs, cs.Macro), cs.Pre...)
+		for _, call := range cs.Calls {
+			if call.K != "call" {
+				continue
+			}
+			expr := strings.TrimSuffix(strings.TrimPrefix(mmSrc([]MNode{call}), "{{ "), " }}")
+			p1 := mmSrc(defs) + "{% autoescape off %}{{ " + expr + " }}{% endautoescape %}"
+			p2 := mmSrc(defs) + "{% autoescape off %}{% set keep = " + expr + " %}{% endautoescape %}{{ keep }}"
+			var outs [2]string
+			var errs [2]error
+			for i, src := range []string{p1, p2} {
+				tpl, err := pongo2.NewSet("c13keep", &memLoader{}).FromString(src)
+				if err != nil {
+					return fmt.Errorf("%q does not compile: %v", src, err)
+				}
+				outs[i], errs[i] = tpl.Execute(BuildContext(cs.Ctx))
+			}
+			if (errs[0] == nil) != (errs[1] == nil) || outs[0] != outs[1] {
+				return fmt.Errorf("a macro result printed on the spot renders %q (err %v), kept with set and printed after the autoescape-off region %q (err %v)\n %q\n %q", outs[0], errs[0], outs[1], errs[1], p1, p2)
+			}
+			break
+		}
+	}
 	if firstErr {
 		r.Class("too-many-arguments-error")
 	}
